@@ -250,8 +250,28 @@ impl<'a> World<'a> {
             let extra = if name == "txs" { format!("{}:{}", net, if obs["net"] == json!(8) { "dense" } else { "smt" }) } else { String::new() };
             out.push(json!([format!("root-of:{}:{}:{}", name, extra, d), root, "C07", format!("equal {} contents reached by different histories give different roots", name)]));
             out.push(json!([format!("contents-of:{}:{}:{}", name, extra, root), d, "C07", format!("different {} contents give the same root", name)]));
+            if name == "stakes" {
+                // C13 states the same of the stake commitment: it reflects exactly the registered, unexpired stakes
+                out.push(json!([format!("root-of:{}:{}:{}", name, extra, d), root, "C13", "the stake commitment in the header is not a function of the registered stakes (equal stake sets, different commitments)"]));
+                out.push(json!([format!("contents-of:{}:{}:{}", name, extra, root), d, "C13", "the stake commitment in the header does not reflect the registered stakes (different stake sets, same commitment)"]));
+            }
         }
         out
+    }
+
+    /// the header of a sealed state is a function of that state alone: observed when the state is made and whenever it is looked at again
+    pub fn header_claim(tag: &str, sid: usize, obs: &J) -> J {
+        json!([format!("hdr-of|{}|{}", tag, sid), obs["header"]["hash"], "C07",
+               "the header of a sealed state changed after other states were derived from it (roots are not functions of the state's own contents)"])
+    }
+
+    /// looks at sealed state `sid` again: its header and the contents <-> roots relation must be what they were
+    pub fn reobserve(&mut self, sid: usize) {
+        let s = self.sealed(sid).clone();
+        let obs = self.obs_s(&s);
+        let mut claims = Self::root_claims(&obs);
+        claims.push(Self::header_claim(&self.tag, sid, &obs));
+        self.emit(json!({"ev": "reobs", "sid": sid, "claims": claims}));
     }
 
     /// agreement claims requested by the workload: extra.agreeKey (+ extra.prop) or extra.agree = [[key, prop], ...];
@@ -352,6 +372,7 @@ impl<'a> World<'a> {
                 let nid = self.push(St::S(s));
                 let mut claims = Self::root_claims(&post);
                 claims.extend(Self::agree_claims(&extra, "ok", &post));
+                claims.push(Self::header_claim(&self.tag, nid, &post));
                 self.emit(json!({"ev": "seal", "preid": sid, "postid": nid, "pre": pre, "action": action_j(&action), "blocktxs": blocktxs, "rewardid": rewardid,
                                  "claims": claims, "res": "ok", "post": post, "x": extra}));
                 Some(nid)
